@@ -298,23 +298,23 @@ func (vf *VersionedFetcher) seekNext(c cid.Cid, topParent bool) error {
 		return NewErrVFetcherFailedToWriteBlock(err)
 	}
 
-	// add the CID to the queuedCIDs list
-	if topParent {
-		vf.queuedCids.PushFront(c)
-	}
-
 	// decode the block
 	block, err := coreblock.GetFromBytes(blk.RawData())
 	if err != nil {
 		return NewErrVFetcherFailedToDecodeNode(err)
 	}
 
-	// only seekNext on parent if we have a HEAD link
-	if len(block.Heads) != 0 {
-		err := vf.seekNext(block.Heads[0].Cid, true)
+	// seekNext on every parent, a block may have several HEAD links
+	for _, h := range block.Heads {
+		err := vf.seekNext(h.Cid, topParent)
 		if err != nil {
 			return err
 		}
+	}
+
+	// add the CID to the queuedCIDs list, after its ancestors
+	if topParent {
+		vf.queuedCids.PushBack(c)
 	}
 
 	for _, l := range block.Links {
@@ -408,8 +408,11 @@ func (vf *VersionedFetcher) merge(c cid.Cid) error {
 	}
 
 	// handle subgraphs
-	for _, l := range block.AllLinks() {
-		err = vf.merge(l.Cid)
+	//
+	// The ancestors (HEAD links) are not merged from here: every composite block is queued
+	// once by seekNext, and every field block is linked from exactly one composite block.
+	for _, l := range block.Links {
+		err = vf.merge(l.Link.Cid)
 		if err != nil {
 			return err
 		}
